@@ -1,5 +1,5 @@
 (* C14 - the loaders' batch samplers: plain BatchSampler, the bucketed one, len(), epochs *)
-From Coq Require Import List Arith Bool ZArith Lia Sorting.Sorted.
+From Coq Require Import List Arith Bool ZArith Lia Sorting.Sorted Sorting.Permutation.
 From PV Require Import C14.Model C14.Spec C14.ProofsSampler C14.ProofsSpec C14.ProofsParams.
 Import ListNotations.
 
@@ -109,6 +109,26 @@ Proof.
   - destruct (bucket_iter _ _ _ _) as [o|] eqn:E; [|discriminate]. inversion H; subst. f_equal.
     apply spec_len_eq_number_of_batches. now apply bucket_iter_spec.
   - inversion H; subst. f_equal. symmetry. apply batch_sampler_len_eq. lia.
+Qed.
+
+(* __len__ caches the value it computes at its first call.  That is sound because the value does
+   not depend on the order: any two epochs that present the same indices have the same number of
+   batches (single process: every epoch is a permutation of all indices) *)
+Theorem loader_len_perm : forall lens p order order', Permutation order order' ->
+  loader_len lens p order = loader_len lens p order'.
+Proof.
+  intros lens p order order' Hp. unfold loader_len.
+  destruct (loader_init lens p) as [[[i2b b2s]|]|e]; [| |reflexivity].
+  - f_equal. now apply sampler_len_perm.
+  - now rewrite (Permutation_length Hp).
+Qed.
+
+Theorem loader_cached_len_eq : forall lens p order order' out, 1 <= p_bs p ->
+  Permutation order order' -> loader_batches lens p order' = Ok out ->
+  loader_len lens p order = Ok (length out).
+Proof.
+  intros lens p order order' out Hbs Hp H.
+  rewrite (loader_len_perm lens p order order' Hp). now apply loader_len_eq.
 Qed.
 
 (* the constructor never raises ... *)
